@@ -12,8 +12,18 @@ clause oracle: rebuilt quantizer must not raise and must give bit-identical outp
                second rebuild must equal the first, and no route may modify the configuration it
                is handed (a from_config that pops a key damages every later rebuild from the
                same dictionary).
+strengthening: hidden per-instance state (vars(q) minus the constructor arguments: inventory vs the
+               model, derived values `_min_exp` / `_max_exp` / `freeze_scale` vs the model, rebuilt vs
+               original), `get_config()` of the rebuilt quantizer == the configuration it was rebuilt
+               from, boundary cells of the po2 exponent-range derivation probed across the whole
+               float32 exponent range; and three more streams judged by the same clause oracle:
+               process-level state (build under one `set_internal_sigmoid` mode / image data format,
+               switch, rebuild, compare under both), histories on one object (called, handed to a
+               layer = `_set_trainable_parameter`, `update_qnoise_factor`, `use_variables` + call),
+               argument forms (numpy scalars, 0-d arrays, tf.constant, int for float, ...).
 """
 import inspect
+import os
 
 import numpy as np
 
@@ -62,6 +72,19 @@ def _cfg_canon(cfg):
     return ["<unencodable: %s>" % L.err_tag(e), sorted(map(str, cfg))]
 
 
+def _kv(p):
+  return (p[0], repr(p[1]))
+
+
+def _cfg_diff(c0, c2):
+  """keys under which two canonical configurations differ"""
+  try:
+    d0, d2 = {k: repr(v) for k, v in c0}, {k: repr(v) for k, v in c2}
+    return sorted(k for k in set(d0) | set(d2) if d0.get(k) != d2.get(k)) or ["<order>"]
+  except Exception:  # pylint: disable=broad-except
+    return ["<unreadable>"]
+
+
 def _build(cls, kw):
   kw = dict(kw)
   return cls(**kw)
@@ -74,8 +97,468 @@ def _kwargs_from_attrs(a):
   return kw
 
 
+# ============================================================================ strengthening streams
+
+def _stable_hidden(q, names):
+  """hidden attributes that a call does not rewrite and that do not mirror a build-only option"""
+  return [kv for kv in L.hidden(q, names) if kv[0] not in L.VOLATILE and kv[0] not in L.BUILD_ONLY_MIRRORS]
+
+
+def _routes(Q, tf, cls, name, q):
+  """the three rebuild routes as thunks; the configuration is taken once, now"""
+  cfg = q.get_config()
+
+  def keras():
+    ser = tf.keras.utils.serialize_keras_object(q)
+    return tf.keras.utils.deserialize_keras_object(ser, custom_objects={name: cls})
+  return cfg, [("from_config", lambda: cls.from_config(cfg)),
+               ("get_quantizer", lambda: Q.get_quantizer({"class_name": name, "config": cfg})),
+               ("keras", keras)]
+
+
+def _raises(o):
+  return any(isinstance(v, tuple) and v and v[0] == "raises" for v in o.values())
+
+
+def _first_diff(x, ya, yb):
+  """a concrete probe value on which two outputs differ"""
+  try:
+    a, b = np.frombuffer(ya, np.float32), np.frombuffer(yb, np.float32)
+    if a.shape != b.shape:
+      return {"shapes": [list(a.shape), list(b.shape)]}
+    i = int(np.flatnonzero(~((a == b) | (np.isnan(a) & np.isnan(b))))[0])
+    return {"x": float(np.asarray(x).reshape(-1)[i]), "original": float(a[i]), "rebuilt": float(b[i]),
+            "n_differ": int(np.sum(a != b)), "of": int(a.size)}
+  except Exception:  # pylint: disable=broad-except
+    return {}
+
+
+def _keras_real_outcome(tf, q, names):
+  """what the Keras pair does with the configuration of q, classified like the model's
+  KerasOutcome: ok | serialize_raises | arrives_as_dict(keys)"""
+  try:
+    ser = tf.keras.utils.serialize_keras_object(q)
+  except TypeError as e:
+    return {"kind": "serialize_raises", "msg": str(e)[:120]}
+  except Exception as e:  # pylint: disable=broad-except
+    return {"kind": "serialize_raises:" + L.err_tag(e), "msg": str(e)[:120]}
+  keys = [k for k, v in ser.get("config", {}).items() if L.is_tensor_dict(v)]
+  return {"kind": "arrives_as_dict", "keys": keys} if keys else {"kind": "ok"}
+
+
+def _world_stream(run, tier, Q, tf, K, reg, model_cls, base_recs, base_outs):
+  """process-level state: build under one setting, switch, rebuild, compare under both.
+  Which instances read the sigmoid switch at call time is the model's `readsSigmoid`, tied here
+  in both directions for the deterministic classes."""
+  xsig = [L.sigmoid_probe()]
+  lines, metas = [], []
+  try:
+    for rec, o in zip(base_recs, base_outs):
+      name, kw = rec["class"], rec["kw"]
+      if rec["kind"] not in ("default", "context", "single") or "attrs" not in rec or rec.get("call_raises"):
+        continue
+      reads = bool(o.get("reads_sigmoid"))
+      if not reads and rec["kind"] != "default":
+        continue
+      cls = reg[name]
+      names = [p[0] for p in model_cls[name]["params"]]
+      phases = (1,) if name in L.STOCHASTIC_CLASSES else (0,)
+      key = {"class": name, "kw": L.enc_env(kw)}
+      run.case(("world", name, repr(L.enc_env(kw))), nontrivial=True)
+      run.count("world_reads_sigmoid" if reads else "world_does_not_read_sigmoid")
+      pairs = [(a, b) for a in L.SIGMOID_MODES for b in L.SIGMOID_MODES if a != b] if reads else [("hard", "smooth")]
+      sens_done = False
+      for m0 in dict.fromkeys(a for a, _ in pairs):
+        Q.set_internal_sigmoid(m0)
+        q = cls(**kw)
+        h0 = L.hidden(q, names)
+        L.observe(q, xsig, phases, grad=False)             # the original is used once under m0
+        base = {}
+        for m in L.SIGMOID_MODES:
+          Q.set_internal_sigmoid(m)
+          base[m] = L.observe(q, xsig, phases, grad=False)
+        if not sens_done:
+          sens_done = True
+          varies = any(base[m] != base["hard"] for m in L.SIGMOID_MODES)
+          run.compared += 1
+          if varies and not reads:
+            run.disagree("world.reads_sigmoid", key, "outputs depend on set_internal_sigmoid", "does not read it")
+          elif reads and not varies:
+            if name in L.STOCHASTIC_CLASSES:
+              run.count("world_sigmoid_reader_not_sensitive_on_probe")
+            else:
+              run.disagree("world.reads_sigmoid", key, "outputs independent of set_internal_sigmoid", "reads it")
+          # k-th use == fresh twin (the object has been called four times, under three modes)
+          Q.set_internal_sigmoid(m0)
+          twin = L.observe(cls(**kw), xsig, phases, grad=False)
+          if twin != base[m0]:
+            run.violate("same_output", {"class": name, "stream": "world", "vs": "fresh_twin"},
+                        {"kw": L.enc_env(kw), "mode": m0,
+                         "replay": "q=%s(**kw); q(x) under several set_internal_sigmoid modes; q(x) vs %s(**kw)(x)"
+                                   % (name, name)}, mirrored=False)
+        for m1 in [b for a, b in pairs if a == m0]:
+          Q.set_internal_sigmoid(m1)
+          cfg, routes = _routes(Q, tf, cls, name, q)
+          for route, make in routes:
+            run.compared += 1
+            try:
+              q2 = make()
+            except Exception as e:  # pylint: disable=broad-except
+              run.violate("rebuild_raises", {"class": name, "error": L.err_tag(e), "route": route, "stream": "world"},
+                          {"kw": L.enc_env(kw), "built_under": m0, "rebuilt_under": m1, "msg": str(e)[:160]},
+                          mirrored=False)
+              continue
+            h2 = L.hidden(q2, names)
+            if [kv for kv in h2 if kv[0] not in L.VOLATILE] != [kv for kv in h0 if kv[0] not in L.VOLATILE]:
+              run.violate("same_hidden_state", {"class": name, "stream": "world"},
+                          {"kw": L.enc_env(kw), "built_under": m0, "rebuilt_under": m1, "route": route,
+                           "original": h0, "rebuilt": h2}, mirrored=False)
+            for m2 in (m1, m0):
+              Q.set_internal_sigmoid(m2)
+              o2 = L.observe(q2, xsig, phases, grad=False)
+              if o2 != base[m2]:
+                k0 = [k for k in base[m2] if base[m2][k] != o2.get(k)][0]
+                run.count("world_differs_%s" % name)
+                run.violate("same_output", {"class": name, "stream": "world", "state": "set_internal_sigmoid"},
+                            {"kw": L.enc_env(kw), "built_under": m0, "rebuilt_under": m1, "called_under": m2,
+                             "route": route, "first_difference": _first_diff(xsig[0], base[m2][k0], o2.get(k0)),
+                             "replay": "set_internal_sigmoid(%r); q=%s(**kw); set_internal_sigmoid(%r); "
+                                       "q2=<%s>(q); set_internal_sigmoid(%r); q2(x) vs q(x)"
+                                       % (m0, name, m1, route, m2)}, mirrored=False)
+            Q.set_internal_sigmoid(m1)
+      Q.set_internal_sigmoid("hard")
+      lines.append({"op": "history", "cls": name, "kw": L.enc_env(kw),
+                    "steps": [{"op": "call"}, {"op": "world", "sigmoid": "smooth"}]})
+      metas.append((key, rec))
+    # image data format: read at call time by the auto-scaled quantizers when scale_axis is None
+    x4 = [np.transpose(L.probes(np.random.default_rng(run.seed))[2], (0, 3, 1, 2)).copy()]
+    n_fmt = {}
+    for rec in base_recs:
+      name, kw = rec["class"], rec["kw"]
+      if (rec["kind"] not in ("context", "single") or not isinstance(kw.get("alpha"), str) or "scale_axis" in kw
+          or len(kw) > 2 or rec.get("call_raises") or "attrs" not in rec):
+        continue
+      n_fmt[name] = n_fmt.get(name, 0) + 1
+      if tier == "quick" and n_fmt[name] > 2:
+        continue
+      cls = reg[name]
+      run.case(("world.format", name, repr(L.enc_env(kw))), nontrivial=True)
+      run.count("world_data_format")
+      for f0, f1 in (("channels_last", "channels_first"), ("channels_first", "channels_last")):
+        K.set_image_data_format(f0)
+        q = cls(**kw)
+        ofa = L.observe(q, x4, (0,), grad=False)
+        K.set_image_data_format(f1)
+        if L.observe(q, x4, (0,), grad=False) != ofa:
+          run.count("world_data_format_changes_output")
+        cfg, routes = _routes(Q, tf, cls, name, q)
+        for route, make in routes:
+          run.compared += 1
+          try:
+            q2 = make()
+          except Exception as e:  # pylint: disable=broad-except
+            run.violate("rebuild_raises", {"class": name, "error": L.err_tag(e), "route": route,
+                                           "stream": "world"}, {"kw": L.enc_env(kw), "msg": str(e)[:160]},
+                        mirrored=False)
+            continue
+          for f2 in (f1, f0):
+            K.set_image_data_format(f2)
+            oa, ob = L.observe(q, x4, (0,), grad=False), L.observe(q2, x4, (0,), grad=False)
+            if oa != ob and not _raises(oa):
+              run.violate("same_output", {"class": name, "stream": "world", "state": "image_data_format"},
+                          {"kw": L.enc_env(kw), "built_under": f0, "rebuilt_under": f1, "called_under": f2,
+                           "route": route, "differs": sorted(L.obs_diff(oa, ob))}, mirrored=False)
+          K.set_image_data_format(f1)
+  finally:
+    Q.set_internal_sigmoid("hard")
+    K.set_image_data_format("channels_last")
+  # the model: nothing is captured, so a switch of the world changes neither fields nor config
+  for (key, rec), o in zip(metas, core.run_driver("C09", lines)):
+    run.compared += 1
+    if "err" in o.get("construct", {}) or L.canon_env(o["config"]) != rec["config"] or o["sigmoid"] != "smooth":
+      run.disagree("world.history", key, rec["config"], o.get("config"))
+
+
+HISTORIES = [
+    ("call2", [("call", 2), ("call", 0)], {}),
+    ("stp", [("set_trainable",)], {}),
+    ("call_stp_call", [("call", 0), ("set_trainable",), ("call", 2)], {}),
+    ("uqf", [("update_qnoise", 0.25)], {}),
+    ("variables_call_uqf", [("call", 0), ("update_qnoise", 0.5)], {"use_variables": True}),
+    ("uqf_tensor", [("update_qnoise", "tensor:0.25")], {}),
+]
+
+
+def _history_stream(run, tier, Q, tf, K, reg, model_cls, rng, xs):
+  """histories on ONE object before get_config(): called (different ranks), handed to a layer
+  (`_set_trainable_parameter`), re-configured through `update_qnoise_factor`, variables built"""
+  lines, metas = [], []
+  for name, cls in reg.items():
+    names = [p[0] for p in model_cls[name]["params"]]
+    lat = L.LATTICE[name]
+    cands = [{}] + [dict(c) for c in lat["contexts"] if c]
+    singles = [kw for kind, kw in L.configs(name, "quick", np.random.default_rng(0)) if kind == "single"]
+    n_s = 4 if tier == "quick" else 10
+    idx = sorted(rng.choice(len(singles), size=min(n_s, len(singles)), replace=False).tolist())
+    cands += [singles[i] for i in idx]
+    if name in L.PO2_CLASSES:
+      cands += [{"bits": 1, "max_value": 2}, {"bits": 2, "max_value": 2, "quadratic_approximation": True}]
+    stochastic = name in STOCHASTIC
+    for j, kw0 in enumerate(cands):
+      for hi, (hname, steps, extra) in enumerate(HISTORIES):
+        if tier == "quick" and j > 0 and (hi + j) % 2:
+          continue     # quick: the default instance gets every history, the others every second one
+        if any(k not in names for k in extra):
+          continue
+        if any(st[0] == "update_qnoise" for st in steps) and "qnoise_factor" not in names:
+          continue
+        kw = dict(kw0)
+        kw.update(extra)
+        phases = (0, 1) if stochastic or kw.get("use_stochastic_rounding") else (0,)
+        try:
+          q = cls(**kw)
+        except Exception:  # pylint: disable=broad-except
+          continue
+        msteps, ok = [], True
+        for st in steps:
+          try:
+            if st[0] == "call":
+              y = q(tf.constant(xs[st[1]]))
+              if hasattr(y, "numpy"):
+                y.numpy()
+              msteps.append({"op": "call"})
+            elif st[0] == "set_trainable":
+              q._set_trainable_parameter()  # pylint: disable=protected-access
+              msteps.append({"op": "set_trainable"})
+            else:
+              v = st[1]
+              if isinstance(v, str):
+                v = tf.constant(float(v.split(":")[1]))
+              q.update_qnoise_factor(v)
+              msteps.append({"op": "update_qnoise", "v": L.enc(v)})
+          except Exception:  # pylint: disable=broad-except
+            ok = False       # the option combination itself is rejected at call time
+            break
+        if not ok:
+          run.count("history_step_raises")
+          continue
+        key = {"class": name, "kw": L.enc_env(kw), "history": hname}
+        run.case(("history", name, hname, repr(L.enc_env(kw))), nontrivial=True)
+        run.count("history_" + hname)
+        rec = {"key": key, "name": name, "hname": hname, "kw": kw}
+        rec["attrs"] = L.attrs(q, names)
+        rec["hidden"] = _stable_hidden(q, names)
+        rec["forms"] = [[k, L.form_of(getattr(q, k, None))] for k in names]
+        try:
+          rec["config"] = _cfg_canon(q.get_config())
+        except Exception as e:  # pylint: disable=broad-except
+          run.violate("get_config_raises", {"class": name, "error": L.err_tag(e), "history": hname}, key, mirrored=False)
+          continue
+        rec["keras_real"] = _keras_real_outcome(tf, q, names)
+        grad = j == 0 or tier != "quick"
+        hx = xs[:2] if grad else xs[:1]
+        o1 = L.observe(q, hx, phases, grad=grad)
+        if _raises(o1):
+          run.count("history_original_call_raises")
+          continue
+        if hname == "call2":
+          # the k-th use of an object equals the first use of a fresh twin
+          run.compared += 1
+          ot = L.observe(cls(**kw), hx, phases, grad=grad)
+          if ot != o1:
+            run.violate("same_output", {"class": name, "history": hname, "vs": "fresh_twin"},
+                        {"kw": L.enc_env(kw), "differs": sorted(L.obs_diff(o1, ot)),
+                         "replay": "q=%s(**kw); q(x4); q(x2); q(x) vs %s(**kw)(x)" % (name, name)}, mirrored=False)
+        cfg, routes = _routes(Q, tf, cls, name, q)
+        rec["routes"] = {}
+        for route, make in routes:
+          try:
+            q2 = make()
+            r = {"ok": L.attrs(q2, names),
+                 "hidden": _stable_hidden(q2, names)}
+            try:
+              r["config"] = _cfg_canon(q2.get_config())
+            except Exception as e:  # pylint: disable=broad-except
+              r["config"] = ["<raises %s>" % L.err_tag(e)]
+            if route == "keras":
+              r["dict_attrs"] = [k for k in names if L.is_tensor_dict(getattr(q2, k, None))]
+            o2 = L.observe(q2, hx, phases, grad=grad)
+            r["kinds"] = sorted(L.obs_diff(o1, o2))
+          except Exception as e:  # pylint: disable=broad-except
+            r = {"err": L.err_tag(e), "msg": str(e)[:160]}
+          rec["routes"][route] = r
+        lines.append({"op": "history", "cls": name, "kw": L.enc_env(kw), "steps": msteps})
+        lines.append({"op": "keras_forms", "cls": name, "stored": rec["forms"]})
+        metas.append(rec)
+  outs = core.run_driver("C09", lines)
+  for n, rec in enumerate(metas):
+    o, ok_model = outs[2 * n], outs[2 * n + 1]
+    _judge_history(run, rec, o, ok_model, "history")
+
+
+def _judge_history(run, rec, o, keras_model, stream):
+  """one used / form-variant object: model vs implementation, then the clauses"""
+  name, key = rec["name"], rec["key"]
+  tag = {k: v for k, v in key.items() if k not in ("class", "kw")}
+  mirrored = True
+  run.compared += 1
+  if "err" in o.get("construct", {}):
+    run.disagree(stream + ".construct", key, "ok", o["construct"]["err"])
+    return
+  after = o["after"]
+  if L.canon_env(list(rec["attrs"].items())) != L.canon_env(after["ok"]):
+    run.disagree(stream + ".fields", key, L.canon_env(list(rec["attrs"].items())), L.canon_env(after["ok"]))
+    mirrored = False
+  mh = after["hidden"]
+  if L.canon_env([kv for kv in rec["hidden"] if kv[0] in [m[0] for m in mh]]) != L.canon_env(mh):
+    run.disagree(stream + ".hidden", key, rec["hidden"], mh)
+    mirrored = False
+  if rec["config"] != L.canon_env(o["config"]):
+    run.disagree(stream + ".get_config", key, rec["config"], L.canon_env(o["config"]))
+    mirrored = False
+  kr = rec["keras_real"]
+  run.compared += 1
+  if kr["kind"] != keras_model["kind"] or sorted(kr.get("keys", [])) != sorted(keras_model.get("keys", [])):
+    run.disagree(stream + ".keras_outcome", key, kr, keras_model)
+    mirrored = False
+  run.count("%s_keras_%s" % (stream, kr["kind"]))
+  for route, mkey in (("from_config", "from_config"), ("get_quantizer", "get_quantizer"), ("keras", "from_config")):
+    r, m = rec["routes"][route], o[mkey]
+    run.compared += 1
+    cause = None
+    if route == "keras" and kr["kind"] != "ok":
+      cause = "config_holds_variable" if kr["kind"] == "serialize_raises" else "tensor_arrives_as_dict"
+    if "err" in r:
+      if cause is None and ("err" not in m or m["err"] != r["err"]):
+        run.disagree("%s.route.%s" % (stream, route), key, r["err"], m.get("err", "ok"))
+        mirrored = False
+      # one defect = one key: the history / form / route that exposed it goes into the detail,
+      # except for the two modelled Keras-pair causes (whose known-finding entries name the route)
+      k = {"class": name, "error": r["err"], "stream": stream}
+      if cause:
+        k["route"] = route
+        k["cause"] = cause
+        k["field"] = "+".join(kr.get("keys", [])) or "+".join(f[0] for f in rec["forms"] if f[1] == "variable")
+      run.violate("rebuild_raises", k, {"kw": key["kw"], "msg": r.get("msg"), "keras": kr, "route": route, **tag,
+                                        "replay": "q=%s(**kw); <%s>; <rebuild by %s>" % (name, tag, route)},
+                  mirrored=mirrored)
+      continue
+    if cause is None:
+      if "err" in m:
+        run.disagree("%s.route.%s" % (stream, route), key, "ok", m["err"])
+        mirrored = False
+      else:
+        if L.canon_env(list(r["ok"].items())) != L.canon_env(m["ok"]):
+          run.disagree("%s.route.%s.fields" % (stream, route), key, L.canon_env(list(r["ok"].items())),
+                       L.canon_env(m["ok"]))
+          mirrored = False
+        mh2 = m["hidden"]
+        if L.canon_env([kv for kv in r["hidden"] if kv[0] in [x[0] for x in mh2]]) != L.canon_env(mh2):
+          run.disagree("%s.route.%s.hidden" % (stream, route), key, r["hidden"], mh2)
+          mirrored = False
+    elif cause == "tensor_arrives_as_dict" and sorted(r.get("dict_attrs", [])) != sorted(kr.get("keys", [])):
+      # the tensor was decoded after all (or lost): not the behaviour the model describes
+      mirrored = False
+    k = {"class": name, "stream": stream}
+    if cause:
+      k["route"] = route
+      k["cause"] = cause
+      k["field"] = "+".join(kr.get("keys", []))
+    if r["hidden"] != rec["hidden"] and not cause:
+      d0, d2 = dict(map(_kv, rec["hidden"])), dict(map(_kv, r["hidden"]))
+      bad = sorted(a for a in set(d0) | set(d2) if d0.get(a) != d2.get(a))
+      run.violate("same_hidden_state", dict(k, attr="+".join(bad)),
+                  {"kw": key["kw"], "route": route, **tag, "original": rec["hidden"], "rebuilt": r["hidden"]},
+                  mirrored=mirrored)
+    if r["config"] != rec["config"] and not cause:
+      run.violate("config_fixed_point", dict(k, field="+".join(_cfg_diff(rec["config"], r["config"]))),
+                  {"kw": key["kw"], "route": route, **tag, "config": rec["config"], "config_of_rebuilt": r["config"]},
+                  mirrored=mirrored)
+    if r["kinds"]:
+      clause = "same_output" if set(r["kinds"]) & {"output", "scale"} else "same_gradient"
+      run.count("%s_differs_%s" % (stream, name))
+      diff = [n for n in r["ok"] if r["ok"][n] != rec["attrs"].get(n)] if not cause else []
+      run.violate(clause, dict(k, field=k.get("field") or "+".join(diff) or "<no field differs>"),
+                  {"kw": key["kw"], "differs": r["kinds"], "keras": kr, "route": route, **tag,
+                   "replay": "q=%s(**kw); <%s>; q2=<rebuild by %s>; q2(x) vs q(x)" % (name, tag, route)},
+                  mirrored=mirrored)
+
+
+def _forms_stream(run, tier, Q, tf, K, reg, model_cls, xs):
+  """the same option value held as numpy scalar / 0-d array / tf.constant / int-for-float ...:
+  the configuration must still rebuild the same function"""
+  lines, metas = [], []
+  for name, cls in reg.items():
+    names = [p[0] for p in model_cls[name]["params"]]
+    lat = L.LATTICE[name]
+    stochastic = name in STOCHASTIC
+    for oi, (opt, vals) in enumerate(lat["options"].items()):
+      vs = [v for v in vals if isinstance(v, (bool, int, float))]
+      if not vs:
+        continue
+      v = vs[0]
+      ctxs = [c for c in lat["contexts"] if opt not in c]
+      # the context that makes the option matter is the LAST one that admits it (see LATTICE)
+      ctx = ctxs[-1] if ctxs else {}
+      for fname, fv in L.forms(v, alt=(oi % 2) if tier == "quick" else None):
+        kw = dict(ctx)
+        kw[opt] = fv
+        key = {"class": name, "kw": L.enc_env(kw), "form": fname, "option": opt}
+        phases = (0, 1) if stochastic or kw.get("use_stochastic_rounding") else (0,)
+        try:
+          q = cls(**kw)
+        except Exception:  # pylint: disable=broad-except
+          run.count("form_construct_raises")
+          continue
+        o1 = L.observe(q, xs[:1], phases, grad=False)
+        if _raises(o1):
+          run.count("form_original_call_raises")     # the form is not accepted by __call__ itself
+          continue
+        run.case(("form", name, opt, fname), nontrivial=True)
+        run.count("form_" + fname)
+        kwl = dict(ctx)
+        kwl[opt] = v
+        if L.observe(cls(**kwl), xs[:1], phases, grad=False) != o1:
+          run.count("form_differs_from_literal")     # not a round-trip clause: counted only
+        rec = {"key": key, "name": name, "kw": kw}
+        rec["attrs"] = L.attrs(q, names)
+        rec["hidden"] = _stable_hidden(q, names)
+        rec["forms"] = [[k, L.form_of(getattr(q, k, None))] for k in names]
+        try:
+          rec["config"] = _cfg_canon(q.get_config())
+        except Exception as e:  # pylint: disable=broad-except
+          run.violate("get_config_raises", {"class": name, "error": L.err_tag(e), "form": fname}, key, mirrored=False)
+          continue
+        rec["keras_real"] = _keras_real_outcome(tf, q, names)
+        cfg, routes = _routes(Q, tf, cls, name, q)
+        rec["routes"] = {}
+        for route, make in routes:
+          try:
+            q2 = make()
+            r = {"ok": L.attrs(q2, names),
+                 "hidden": _stable_hidden(q2, names)}
+            try:
+              r["config"] = _cfg_canon(q2.get_config())
+            except Exception as e:  # pylint: disable=broad-except
+              r["config"] = ["<raises %s>" % L.err_tag(e)]
+            if route == "keras":
+              r["dict_attrs"] = [k for k in names if L.is_tensor_dict(getattr(q2, k, None))]
+            r["kinds"] = sorted(L.obs_diff(o1, L.observe(q2, xs[:1], phases, grad=False)))
+          except Exception as e:  # pylint: disable=broad-except
+            r = {"err": L.err_tag(e), "msg": str(e)[:160]}
+          rec["routes"][route] = r
+        lines.append({"op": "history", "cls": name, "kw": L.enc_env(kw), "steps": []})
+        lines.append({"op": "keras_forms", "cls": name, "stored": rec["forms"]})
+        metas.append(rec)
+  outs = core.run_driver("C09", lines)
+  for n, rec in enumerate(metas):
+    _judge_history(run, rec, outs[2 * n], outs[2 * n + 1], "forms")
+
+
 def run(run: core.Run, tier: str):
   core.assert_repo_import()
+  import time as _time
+  t_start = _time.time()
   import tensorflow as tf
   from qkeras import quantizers as Q
   from qkeras import quantizer_registry as R
@@ -86,7 +569,15 @@ def run(run: core.Run, tier: str):
       "list-valued / formerly-omitted option combinations of EXTRA; non-trivial = "
       "distinct (class, keyword set); probes = fixed 4x6 tensor with distinct rows/columns and "
       "out-of-range values, a seeded 4x6 and a seeded rank-4 tensor; both learning phases for "
-      "stochastic configurations, tf.random seed reset before every call")
+      "stochastic configurations, tf.random seed reset before every call; strengthening: po2 boundary "
+      "cells (bits 1,2 x max_value None,.5,1,2,4,3 x quadratic x slope) probed with +-2^k over the whole "
+      "float32 exponent range; world stream = every default/context/single configuration the model says "
+      "reads the sigmoid switch x 6 ordered mode pairs x 3 routes x called under both modes (others: "
+      "default configuration, one pair), image data format both orders (<= 2 configurations per class in "
+      "quick); history stream = default + contexts + 4 seeded single-option configurations per class x "
+      "{call2, stp, call_stp_call, uqf, variables_call_uqf, uqf_tensor} (every second one for non-default "
+      "configurations in quick); forms stream = first value of every numeric/boolean option x numpy "
+      "scalar (alternating widths in quick), 0-d ndarray, tf.constant, int/float substitutions")
   run.assumptions.append(
       "identical stored constructor arguments imply identical behaviour (__call__ reads nothing "
       "else); exercised by comparing outputs of rebuilt instances whose fields agree")
@@ -150,14 +641,18 @@ def run(run: core.Run, tier: str):
 
   # ------------------------------------------------------------------ behavioural tie
   xs_all = L.probes(rng)
-  xs = xs_all if tier != "quick" else [xs_all[0], xs_all[2]]
+  xs_base = xs_all if tier != "quick" else [xs_all[0], xs_all[2]]
   lines, recs = [], []
   for name in tables["registry"]:
     cls = reg.get(name)
     if cls is None:
       continue
     names = [p[0] for p in model_cls[name]["params"]]
-    for kind, kw in L.configs(name, tier, rng) + [("extra", kw) for kw in EXTRA.get(name, [])]:
+    xs_cls = xs_base + [L.po2_probe()] if name in L.PO2_CLASSES else xs_base
+    for kind, kw in (L.configs(name, tier, rng) + [("extra", kw) for kw in EXTRA.get(name, [])]
+                     + [("boundary", kw) for kw in L.po2_boundary(name, tier)]):
+      if kind == "boundary" and any(r["class"] == name and L.enc_env(r["kw"]) == L.enc_env(kw) for r in recs):
+        continue
       rec = {"class": name, "kw": kw, "kind": kind}
       line = {"op": "roundtrip", "cls": name, "args": [], "kw": L.enc_env(kw)}
       lines.append(line)
@@ -173,6 +668,7 @@ def run(run: core.Run, tier: str):
         continue
       a0 = L.attrs(q, names)
       rec["attrs"] = a0
+      rec["hidden"] = L.hidden(q, names)      # before the first call
       try:
         cfg = q.get_config()
         rec["config"] = L.canon_env(L.enc_env(cfg))
@@ -181,6 +677,7 @@ def run(run: core.Run, tier: str):
         continue
       stochastic = name in STOCHASTIC or bool(kw.get("use_stochastic_rounding"))
       phases = (0, 1) if stochastic else (0,)
+      xs = xs_cls
       o0 = L.observe(q, xs, phases)
       rec["call_raises"] = any(isinstance(v, tuple) and v and v[0] == "raises" for v in o0.values())
       if rec["call_raises"]:
@@ -209,6 +706,13 @@ def run(run: core.Run, tier: str):
                 raise ser
               q2 = tf.keras.utils.deserialize_keras_object(ser, custom_objects={name: cls})
             a2 = L.attrs(q2, names)
+            if attempt == 1:
+              # hidden attributes (before any call) and the configuration of the rebuilt quantizer
+              rec.setdefault("hidden2", {})[route] = L.hidden(q2, names)
+              try:
+                rec.setdefault("config2", {})[route] = _cfg_canon(q2.get_config())
+              except Exception as e:  # pylint: disable=broad-except
+                rec.setdefault("config2", {})[route] = ["<raises %s>" % L.err_tag(e)]
             if attempt == 2 and "ok" in routes.get(route, {}) and a2 == routes[route]["ok"]:
               # same stored fields as the first rebuild of this route: same verdict
               dest[route] = {"ok": a2, "kinds": routes[route]["kinds"]}
@@ -291,6 +795,48 @@ def run(run: core.Run, tier: str):
     if rec["config"] != L.canon_env(o["config"]):
       run.disagree("get_config", case, rec["config"], L.canon_env(o["config"]))
       mirrored = False
+    # ---- hidden per-instance state of the original: inventory and derived values vs the model
+    hid_names = model_cls[name]["hidden_names"]
+    run.compared += 1
+    # (`scale` is created by __init__ only on some paths and by the first call otherwise)
+    if (sorted(k for k, _ in rec["hidden"] if k not in L.VOLATILE)
+        != sorted(k for k in hid_names if k not in L.VOLATILE)):
+      run.disagree("construct.hidden_inventory", case, [k for k, _ in rec["hidden"]], hid_names)
+      mirrored = False
+    mh = o.get("hidden") or []
+    mh_names = [m[0] for m in mh]
+    if L.canon_env([kv for kv in rec["hidden"] if kv[0] in mh_names]) != L.canon_env(mh):
+      run.disagree("construct.hidden", case, [kv for kv in rec["hidden"] if kv[0] in mh_names], mh)
+      mirrored = False
+    for route, mkey in (("from_config", "from_config"), ("get_quantizer", "get_quantizer"),
+                        ("keras", "from_config")):
+      r, m = rec["routes"][route], o[mkey]
+      if "ok" in r and route in rec.get("hidden2", {}):
+        run.compared += 1
+        h2 = rec["hidden2"][route]
+        mh2 = o.get("hidden_rebuilt") or []
+        if L.canon_env([kv for kv in h2 if kv[0] in [x[0] for x in mh2]]) != L.canon_env(mh2):
+          run.disagree("route.%s.hidden" % route, case, h2, mh2)
+          mirrored = False
+        if h2 != rec["hidden"]:
+          d0, d2 = dict(map(tuple, map(_kv, rec["hidden"]))), dict(map(tuple, map(_kv, h2)))
+          bad = sorted(k for k in set(d0) | set(d2) if d0.get(k) != d2.get(k))
+          run.count("hidden_state_differs_%s" % name)
+          run.violate("same_hidden_state", {"class": name, "attr": "+".join(bad)},
+                      {"kw": line["kw"], "route": route, "original": {k: d0.get(k) for k in bad},
+                       "rebuilt": {k: d2.get(k) for k in bad},
+                       "replay": "q=%s(**kw); q2=%s.from_config(q.get_config()); vars(q2) vs vars(q)" % (name, name)},
+                      mirrored=mirrored)
+        c2 = rec["config2"][route]
+        if c2 != rec["config"]:
+          dk = _cfg_diff(rec["config"], c2)
+          run.count("config_not_fixed_point_%s" % name)
+          run.violate("config_fixed_point", {"class": name, "field": "+".join(dk)},
+                      {"kw": line["kw"], "route": route, "config": rec["config"], "config_of_rebuilt": c2,
+                       "replay": "q=%s(**kw); c=q.get_config(); %s.from_config(c).get_config() vs c" % (name, name)},
+                      mirrored=mirrored)
+        if o.get("config_rebuilt") is not None and c2 != L.canon_env(o["config_rebuilt"]):
+          run.disagree("route.%s.config_rebuilt" % route, case, c2, L.canon_env(o["config_rebuilt"]))
     for route, mkey in (("from_config", "from_config"), ("get_quantizer", "get_quantizer"),
                         ("keras", "from_config")):
       r, m = rec["routes"][route], o[mkey]
@@ -366,6 +912,19 @@ def run(run: core.Run, tier: str):
       run.disagree("theorem.same_function", case, sorted(kinds) + errs,
                    "same class, same stored options (build-only options aside)")
   run.extra["reset_fields_without_observable_difference"] = n_unobserved
+
+  # ------------------------------------------------------------------ strengthening streams
+  import tensorflow.keras.backend as K
+  import time
+  t0 = time.time()
+  _world_stream(run, tier, Q, tf, K, reg, model_cls, recs, outs)
+  t1 = time.time()
+  _history_stream(run, tier, Q, tf, K, reg, model_cls, rng, xs_all)
+  t2 = time.time()
+  _forms_stream(run, tier, Q, tf, K, reg, model_cls, xs_all)
+  if os.environ.get("QKV_TIMING"):
+    print("C09 stream seconds: lattice %.0f world %.0f history %.0f forms %.0f"
+          % (t0 - t_start, t1 - t0, t2 - t1, time.time() - t2))
 
   # ------------------------------------------------------------------ malformed stream
   bad = [
